@@ -89,6 +89,22 @@ DESC = {
            "a handler returns Error::ParameterError: SYST:ERR? answers -220,\"Execution error\" instead of \"Parameter error\""),
  "C10-e": ("C10", "process sends its response buffer only when a response completed (flush seen) or the buffer is full",
            "a multi-piece answer that overflows N in a middle piece leaves stale bytes that are sent in front of a later answer (N=16, *IDN? then a short query)"),
+ "C02-f": ("C02", "parse() shortcut for a unit followed only by white space and then ';' or the terminator returns terminated: true in both cases",
+           "a unit without parameters, white space between it and the ';' behind it, and a relative unit after the ';' while the path is not the root"),
+ "C04-f": ("C04", "Response for Error formats number and description with one write! instead of through the quoting helper",
+           "a query that returns an Error value whose custom description contains a double quote"),
+ "C05-f": ("C05", "new exponent range check parses the exponent as i16 and calls abs()",
+           "a float argument with an exponent of exactly -32768 (abs overflow panic with overflow checks)"),
+ "C06-f": ("C06", "#H/#Q/#B conversions share a helper that limits digits to ceil(64/bits) and folds with unchecked shifts",
+           "a 22 digit octal literal with leading digit 2..7 wraps modulo 2^64 and is accepted when the result fits the parameter type: no error, handler runs"),
+ "C07-f": ("C07", "word-at-a-time terminator search (big-endian load + leading_zeros) reports a vertical tab directly before the newline as the terminator",
+           "a message with a parse error whose last byte before the newline is 0x0B, both in the same 8 byte word of one read: the error is reported twice"),
+ "C08-f": ("C08", "process skips newlines that directly follow the one just handled ('blank line' fast path), also when that one was inside a payload",
+           "a block whose last payload byte is a newline, the terminator directly behind it, both in one read: the message stays pending until a later newline"),
+ "C09-f": ("C09", "the empty answer comes from a constant Custom(0, \"\") and the blanket ErrorHandler does not store an error equal to it",
+           "a handler-raised Custom(0, \"\"): COUNt? is one short, the entry is missing, no -350 when it arrives at a full queue"),
+ "C13-f": ("C13", "white space accepted around the exponent marker; float conversion re-assembles such literals in a 32 byte stack buffer and falls back to a String beyond that (alloc gated on panic=unwind)",
+           "an f32/f64 argument with an exponent, a blank next to the E and at least 33 characters without blanks"),
  "C13-b": ("C13", "String::from_utf8_lossy in the quoted-string recogniser",
            "a closed quoted string containing invalid UTF-8"),
 }
